@@ -284,8 +284,9 @@ func (fx *FnExec) execLoop(li *loopInfo) {
 	lc := fx.loopContract(li)
 	// 1. invariants hold on entry
 	for _, inv := range lc.invs {
-		g := fx.evalSpecBool(inv.Expr, in, fx.old, li)
-		e.addObl("contract", fmt.Sprintf("loop%d:inv%s:entry", li.ord, inv.labelStr()), fx.clauseTags(inv), in, g, li.header.Instrs[0].Pos())
+		for i, nt := range fx.evalSpecSplit(inv.Expr, in, fx.old, li) {
+			e.addObl("contract", fmt.Sprintf("loop%d:inv%s%s:entry", li.ord, inv.labelStr(), partName(nt, i)), fx.partTags(inv, nt), in, nt.term, li.header.Instrs[0].Pos())
+		}
 	}
 	// 2. discover what the body writes
 	tr := e.pushTrack()
@@ -348,6 +349,7 @@ func (fx *FnExec) execLoop(li *loopInfo) {
 		na := e.c.fresh("alloc", SInt)
 		st.heap[e.keyAlloc()] = na
 		e.assume(st, "(>= "+na+" "+allocBefore+")")
+		e.assumeTrackedWF(st)
 	}
 	var allocs []*ssa.Alloc
 	for a := range tr.allocs {
@@ -400,8 +402,9 @@ func (fx *FnExec) execLoop(li *loopInfo) {
 			continue
 		}
 		for _, inv := range lc.invs {
-			g := fx.evalSpecBool(inv.Expr, bs, fx.old, li)
-			e.addObl("contract", fmt.Sprintf("loop%d:inv%s:preserve", li.ord, inv.labelStr()), fx.clauseTags(inv), bs, g, li.header.Instrs[0].Pos())
+			for i, nt := range fx.evalSpecSplit(inv.Expr, bs, fx.old, li) {
+				e.addObl("contract", fmt.Sprintf("loop%d:inv%s%s:preserve", li.ord, inv.labelStr(), partName(nt, i)), fx.partTags(inv, nt), bs, nt.term, li.header.Instrs[0].Pos())
+			}
 		}
 		for _, k := range lockKeys {
 			e.addObl("lock", fmt.Sprintf("balanced:loop%d:%s", li.ord, e.heapInfo[k].base), e.autoTags("lock", fx.fn), bs, eq(e.heapGet(bs, k), e.heapGet(head, k)), li.header.Instrs[0].Pos())
@@ -686,6 +689,12 @@ func (fx *FnExec) execInstr(st *State, in ssa.Instruction) {
 		what := shortTypeName(st0) + "." + fld.Name()
 		e.addObl("nopanic", "nil:"+what, fx.tagsNoPanic(), st, not(eq(ref, "0")), in.Pos())
 		e.assume(st, not(eq(ref, "0")))
+		if ls := e.fl.leaves(st0); len(ls) == 1 && ls[0].Path == "" && !isLockType(st0) {
+			// field of an opaque (external) struct: its own heap array
+			ft := fld.Type()
+			fx.setReg(st, in, &Val{Loc: &Loc{Kind: LCell, Ref: ref, S: ft, Root: ft, T: ft, Lo: 0, Hi: len(e.fl.leaves(ft)), Path: fld.Name(), Key: typeKey(st0) + "." + fld.Name()}})
+			return
+		}
 		lo, hi := e.fl.fieldRange(st0, in.Field)
 		fx.setReg(st, in, &Val{Loc: &Loc{Kind: LField, Ref: ref, S: st0, Root: st0, T: fld.Type(), Lo: lo, Hi: hi, Path: fld.Name()}})
 	case *ssa.Field:
@@ -1596,4 +1605,24 @@ func (fx *FnExec) execSelect(st *State, in *ssa.Select) {
 		v.Tup = append(v.Tup, e.freshVal(st, "recv", tup.At(i).Type()))
 	}
 	fx.setReg(st, in, v)
+}
+
+func partName(nt namedTerm, i int) string {
+	if nt.name != "" {
+		return ":" + nt.name
+	}
+	if i == 0 {
+		return ""
+	}
+	return fmt.Sprintf(":part%d", i+1)
+}
+
+func (fx *FnExec) partTags(c *Clause, nt namedTerm) []string {
+	if len(c.Tags) > 0 {
+		return c.Tags
+	}
+	if len(nt.tags) > 0 {
+		return nt.tags
+	}
+	return fx.clauseTags(c)
 }
